@@ -11,11 +11,17 @@ code first forms the double product `600.0 * rate` — one IEEE-754 binary64 mul
 `Fl.roundDouble (600·rate)` for the exact value `rate` of the double handed to the reader — and only then calls
 `round` (ties to even, exact on the double).  The two differ when the exact product lies within half an ulp of a
 `.5` tie: e.g. `rate = 0x1.999999999999ap-4 = 0.1000000000000000055…`, `600·rate = 60.00000000000000333…` is not
-affected, but a rate just above `k + 1/2` over 600 can round to the tie and then to the even neighbour
-(`chunkSizeFl_ne_chunkSize`, `Props/C16.lean`).
+affected, but a rate whose exact product lies just beside `k + 1/2` can round to the tie and then to the even neighbour: the
+double 0.0225 has the exact product 13.4999999999999995… (→ 13) and the float product 13.5 (→ 14, what the real reader
+computes) — theorem `chunkSizeFl_ne_chunkSize`, `Props/C16.lean`.
 
 Not modelled: rates for which the product is subnormal or overflows (`Fl.InRange` fails; the real constructors
-reject the former — chunk size 0 — and `round(inf)` raises OverflowError), NaN.
+reject the former — chunk size 0, AssertionError, which is also what this model says: `chunkSizeFl_pos_iff` — and
+`round(inf)` raises OverflowError where this model returns a finite chunk length), NaN.  The domain of sample rates
+on which this model is the code is `C01.RateOK` (`Spec/C01b.lean`): `1/2 + 2^-54 < 600·rate < 2^1024 − 2^970`; the
+correspondence run of C16 uses that same predicate to decide which rates the real constructor must accept and which
+it must reject.  Sample rates given as NumPy scalars of ANOTHER precision (float32, float16, long double) are
+multiplied in that precision: `Model/C16e.lean`.
 -/
 namespace PhyVerif.C16
 open PhyVerif.Fl
